@@ -86,7 +86,15 @@ Emit == st.lvl = 2 =>
                 ms == Flatten([i \in 1..Len(ps) |-> LET w == GetAt(hdr, ps[i])
                                                      IN [j \in 1..Len(IntValues(w.v, Len(good))) |->
                                                            [kind |-> "set", path |-> ps[i], val |-> [t |-> w.t, v |-> IntValues(w.v, Len(good))[j]]]]])
+                \* ... and of the header of the dictionary page, when the chunk has one (page 0)
+                ch == d.rgs[1].cols[c]
+                dps == IF Len(ch.dict) > 0 THEN PathsOf(DictPage(ch, d.sty).tree, <<>>, IntTypes, 3) ELSE <<>>
+                dms == Flatten([i \in 1..Len(dps) |-> LET w == GetAt(DictPage(ch, d.sty).tree, dps[i])
+                                                       IN [j \in 1..Len(IntValues(w.v, Len(good))) |->
+                                                             [kind |-> "set", path |-> dps[i], val |-> [t |-> w.t, v |-> IntValues(w.v, Len(good))[j]]]]])
             IN PrintT(ToJson([fam |-> "page", b |-> st.b, k |-> c,
                               files |-> [i \in 1..Len(ms) |-> [m |-> MutName(ms[i]),
-                                                               file |-> SerFile(Desc(st.b, c, 1 + (i % 2), ms[i]))]]]))
+                                                               file |-> SerFile(Desc(st.b, c, 1 + (i % 2), ms[i]))]]
+                                        \o [i \in 1..Len(dms) |-> [m |-> "dict" \o MutName(dms[i]),
+                                                                    file |-> SerFile(Desc(st.b, c, 0, dms[i]))]]]))
 =============================================================================
